@@ -88,6 +88,14 @@ CLAIMED = {
              "(adaptation frozen), 4 synapses (delay 0/2dt, in-place and not), 4 connection types with and without symbolic grid delays (T=2-3); Serial / "
              "Biclique / RecurrentSerial layers unrolled T=2-3; trainers with a sum batch reduction: batched parts == sum of per-sample parts.",
         ref="6/C11"),
+    "C12": dict(
+        text="Relational, bounded: model A runs k symbolic steps (k = 0..4 around the ring size 3), its layer/trainer/monitor state dictionaries are "
+             "snapshotted (tensor clone + deep copy of extra state = stub for torch.save/load), model B of the same configuration has already run j in {1,2} "
+             "steps on OTHER symbolic data, loads the snapshot, and both run 2 more steps on the same symbolic inputs: every state-dict entry (ring contents "
+             "and write pointers, reducer flags/counters, adaptations, weights) and every output agree right after the load and after each step. Serial / "
+             "RecurrentSerial x 4 synapses x LIF/ALIF/AdEx x heterogeneous per-synapse delays x trainers none/STDP(delayed)/MSTDPET/DelayAdjustedSTDP x "
+             "in-place/not; MaxRateClassifier with symbolic rates: derived buffers recomputed on load.",
+        ref="6/C12"),
     "C13": dict(
         text="Temporal setters (dt, duration, inclusive) on records whose contents are symbolic markers: size formula (native float arithmetic, incl. "
              "non-representable ratios), the newest min(old,new) observations stay at the same steps-before-present positions, older new slots are zero, "
